@@ -19,12 +19,22 @@ func init() {
 }
 
 func c18(c *q.Ctx) {
+	const st = "bcs/ledger/xledger/state::"
+	// the snapshot walk tells a pending writer from a confirmed one by the Blockid of the transaction record it finds,
+	// and it looks in the pool table first: a posted transaction must not bring a Blockid along (the field is covered
+	// by neither the txid nor the signatures, any client can set it), and none is given to it on the way into the table
+	if dx := c.Fn(st + "(*State).DoTx"); dx != nil {
+		c.Guard(dx, q.Cond{Canon: "(0 < len(p1.Blockid))", Sense: true}, q.ToCall("State.doTxSync"), q.Opt{})
+	}
+	if ds := c.Fn(st + "(*State).doTxSync"); ds != nil {
+		c.ArgIs(ds, "Batch.Put", 1, "proto.Marshal(p1)#0", 1, "the pool record is the posted transaction as it was verified")
+		c.Check(len(q.FieldsStored(ds, "Transaction")) == 0, "K11", st+"(*State).doTxSync", "admission does not edit the transaction", "-", "a field changed after the record was serialised leaves memory and the pool table in disagreement")
+	}
 	// the data the snapshot walk reads: writer records name the block that holds them on the main chain, and the
 	// live / recycle tables are exact after an undo
 	txRemap(c)
 	xmodelDoUndo(c)
 	const xm = "bcs/ledger/xledger/state/xmodel::"
-	const st = "bcs/ledger/xledger/state::"
 	g := c.Fn(xm + "(*xModSnapshot).Get")
 	if g != nil {
 		tx := "xmodel.(*XModel).QueryTx(p0.xmod,local<xModListCursor>.txid)#0"
